@@ -124,6 +124,14 @@ def agree(obs, exp):
     return M.same(obs[1], exp[1])
 
 
+def resource_question(a, b):
+    """True for a sequence/string repetition whose count exceeds the model's bound."""
+    for s_, n in ((a, b), (b, a)):
+        if isinstance(s_, (str, list, tuple)) and isinstance(n, int) and not isinstance(n, bool) and abs(n) > M.MAX_REP:
+            return True
+    return False
+
+
 def classify(op, ka, kb, obs, exp, form):
     if exp == M.NOMATCH and obs[0] == 'v':
         if 'bool' in (ka, kb):
@@ -150,6 +158,12 @@ def job_pairs(tier, a_slice):
                     forms.append(('mixed', '$a %s %s' % (op, lb)))
                 for form, text in forms:
                     res.case((form, op, sa, sb))
+                    if op == '*' and resource_question(a, b):
+                        # a repetition count beyond MAX_REP is a memory question (C08), executing it would
+                        # allocate gigabytes: enumerated, not executed
+                        res.out_of_domain += 1
+                        res.outcomes['ood: repetition count beyond the model bound (not executed)'] += 1
+                        continue
                     obs = observe(text, a, b)
                     res.evaluations += 1
                     res.transitions += 1
@@ -205,6 +219,9 @@ def job_unary_rep(tier):
         for text, order in (('$b * $a', 'list*x'), ('$a * $b', 'x*list')):
             lst = [1, 2]
             res.case(('rep', order, sa))
+            if resource_question(a, lst):
+                res.out_of_domain += 1
+                continue
             exp = M.binary('*', lst, a) if order == 'list*x' else M.binary('*', a, lst)
             obs = observe(text, a, tuple(lst))
             if obs[0] == 'v' and isinstance(obs[1], (list, tuple)):
